@@ -126,6 +126,8 @@ def install(reg):
         requires=[lambda c: S.inv_all(c.self), lambda c: S.valid(c.self, c.node_id)],
         modifies={"self": ["pbn", "pnfvs"]},
         ensures=[("is_nfvs", lambda c: NFVSOf(T.PercNetObj(c.old.self.net, c.old.self.space[c.node_id]), c.result)),
+                 ("names_of_percolated_network", lambda c: z3.ForAll([kn], z3.Implies(
+                     MemN(c.result, kn), T.isvar(bn_net_of(T.PercNetObj(c.old.self.net, c.old.self.space[c.node_id])), kn)))),
                  ("only_caches", lambda c: structure_unchanged(c.self, c.old.self))] + [("inv." + x, pick(lambda c: [("inv." + a, g) for a, g in S.inv(c.self)], "inv." + x)) for x in INVN],
         note="AEON feedback_vertex_set (negative parity below nfvs_size_threshold, any parity above) on the percolated network"), method_of="SD")
 
@@ -244,6 +246,7 @@ def install(reg):
         o, n = entry(c), c.node_id
         A = c.child_motifs_reduced
         return [LS.len(A) >= 0,
+                z3.ForAll([k_], z3.Implies(z3.And(0 <= k_, k_ < LS.len(A)), T.wf_space(LS.at(A)[k_]))),
                 z3.Implies(z3.And(z3.Not(o.expanded[n]), z3.Not(o.skipped[n])), LS.len(A) == 0),
                 c.node_is_pseudo_minimal == (LS.len(A) == 0),
                 structure_unchanged(c.sd, o), S.inv_all(c.sd)]
